@@ -216,4 +216,140 @@ def boundedTrees : List T :=
 /-- `parse (print e) = e`, entire input consumed, queue empty -/
 def roundTrips (c : Cfg) (e : T) : Bool := parseAll c (render e) == .ok e ⟨[], []⟩
 
+/-! ## A block that begins with an f-string — every f-string
+
+For EVERY f-string whose holes hold one identifier or one literal (any number
+of parts, any texts), the blocks `{ f"…" }`, `{ f"…"; }` and `{ f"…"; lit }`
+parse to the documented tree when the look-ahead stops at `f"`. -/
+
+set_option linter.unusedSimpArgs false
+
+theorem tok_beq (a b : Tok) : (a == b) = decide (a = b) := rfl
+
+theorem expr_id_hole (c : Cfg) (g : Nat) (rest : List Sym) :
+    expr c (g + 4) ⟨.n .ident :: .n .rcurly :: rest, []⟩ = .ok .id ⟨rest, [.rcurly]⟩ := by
+  simp [tok_beq, expr, access, atom, pathRest, accessLoop, binLoop, Lx.peek, nextInner, pNext, Lx.next,
+    nextIs, peekIs, R.bind]
+
+theorem expr_lit_hole (c : Cfg) (g : Nat) (rest : List Sym) :
+    expr c (g + 4) ⟨.n .lit :: .n .rcurly :: rest, []⟩ = .ok .lit ⟨rest, [.rcurly]⟩ := by
+  simp [tok_beq, expr, access, atom, pathRest, accessLoop, binLoop, Lx.peek, nextInner, pNext, Lx.next,
+    nextIs, peekIs, R.bind]
+
+/-- f-string parts whose holes hold one identifier or one literal -/
+def FlatParts : T → Bool
+  | .fin _ => true
+  | .part _ e rest => (e == .id || e == .lit) && FlatParts rest
+  | _ => false
+
+def partsCount : T → Nat
+  | .part _ _ r => partsCount r + 1
+  | _ => 0
+
+/-- the loop of `f_string` on flat parts, started with an empty queue -/
+theorem fparts_flat (c : Cfg) : (ps : T) → FlatParts ps = true → ∀ (g : Nat) (rest : List Sym),
+    fparts c (partsCount ps + g + 5) ⟨renderParts ps ++ rest, []⟩ = .ok ps ⟨rest, []⟩
+  | .fin k, _, g, rest => by simp [partsCount, renderParts, fparts, fPart]
+  | .part k e r, h, g, rest => by
+    simp only [FlatParts, Bool.and_eq_true, Bool.or_eq_true, beq_iff_eq] at h
+    have ih := fparts_flat c r h.2 g rest
+    have hf : partsCount (.part k e r) + g + 5 = (partsCount r + g + 5) + 1 := by simp [partsCount]; omega
+    rw [hf]
+    rcases h.1 with he | he <;> subst he
+    · have he := expr_id_hole c (partsCount r + g + 1) (renderParts r ++ rest)
+      have h4 : partsCount r + g + 1 + 4 = partsCount r + g + 5 := by omega
+      rw [h4] at he
+      generalize partsCount r + g + 5 = F at *
+      simp [renderParts, render, fparts, fPart, take, Lx.next, nextInner, R.bind, tok_beq, he, ih]
+    · have he := expr_lit_hole c (partsCount r + g + 1) (renderParts r ++ rest)
+      have h4 : partsCount r + g + 1 + 4 = partsCount r + g + 5 := by omega
+      rw [h4] at he
+      generalize partsCount r + g + 5 = F at *
+      simp [renderParts, render, fparts, fPart, take, Lx.next, nextInner, R.bind, tok_beq, he, ih]
+  | .id, h, _, _ | .lit, h, _, _ | .unit, h, _, _ | .paren _, h, _, _ | .bin _ _, h, _, _ | .field _, h, _, _
+  | .call _ _, h, _, _ | .fstr _, h, _, _ | .list _, h, _, _ | .recd _, h, _, _ | .trec _ _, h, _, _
+  | .block _, h, _, _ | .nil, h, _, _ | .cons _ _, h, _, _ | .slet _ _, h, _, _ | .stmt _ _, h, _, _
+  | .last _, h, _, _ => by simp [FlatParts] at h
+
+theorem partsCount_le (ps : T) : partsCount ps ≤ (renderParts ps).length := by
+  induction ps <;> simp [partsCount, renderParts] <;> omega
+
+/-- the three block shapes that begin with the f-string `ps` -/
+def blockShapes (ps : T) : List T :=
+  [.block (.last (.fstr ps)), .block (.stmt (.fstr ps) .nil), .block (.stmt (.fstr ps) (.last .lit))]
+
+theorem block_fstring_last (c : Cfg) (hs : c.stops = [Tok.fstart]) (hw : c.windows = windowsDoc)
+    (ps : T) (h : FlatParts ps = true) (g : Nat) :
+    expr c (partsCount ps + g + 5 + 8) ⟨render (.block (.last (.fstr ps))), []⟩ = .ok (.block (.last (.fstr ps))) ⟨[], []⟩ := by
+  obtain ⟨stops, windows⟩ := c
+  simp only at hs hw
+  subst hs hw
+  have hp : fparts ⟨[Tok.fstart], windowsDoc⟩ (partsCount ps + g + 5 + 1) ⟨renderParts ps ++ [.n .rcurly], []⟩ =
+      .ok ps ⟨[.n .rcurly], []⟩ := by
+    have := fparts_flat ⟨[Tok.fstart], windowsDoc⟩ ps h (g + 1) [.n .rcurly]
+    rwa [show partsCount ps + (g + 1) + 5 = partsCount ps + g + 5 + 1 by omega] at this
+  generalize partsCount ps + g + 5 = F at *
+  simp [windowsDoc, render, renderItems, expr, access, atom, isRecord, peekMany, fill, stopped, blockItems,
+    accessLoop, binLoop, Lx.peek, nextInner, pNext, Lx.next, nextIs, peekIs, take, R.bind, tok_beq] at hp ⊢
+  rw [hp]
+  simp [accessLoop, binLoop, Lx.peek, nextInner, pNext, Lx.next, nextIs, peekIs, take, R.bind, tok_beq]
+
+theorem block_fstring_stmt (c : Cfg) (hs : c.stops = [Tok.fstart]) (hw : c.windows = windowsDoc)
+    (ps : T) (h : FlatParts ps = true) (g : Nat) :
+    expr c (partsCount ps + g + 5 + 8) ⟨render (.block (.stmt (.fstr ps) .nil)), []⟩ = .ok (.block (.stmt (.fstr ps) .nil)) ⟨[], []⟩ := by
+  obtain ⟨stops, windows⟩ := c
+  simp only at hs hw
+  subst hs hw
+  have hp : fparts ⟨[Tok.fstart], windowsDoc⟩ (partsCount ps + g + 5 + 1) ⟨renderParts ps ++ [.n .semi, .n .rcurly], []⟩ =
+      .ok ps ⟨[.n .semi, .n .rcurly], []⟩ := by
+    have := fparts_flat ⟨[Tok.fstart], windowsDoc⟩ ps h (g + 1) [.n .semi, .n .rcurly]
+    rwa [show partsCount ps + (g + 1) + 5 = partsCount ps + g + 5 + 1 by omega] at this
+  generalize partsCount ps + g + 5 = F at *
+  simp [windowsDoc, render, renderItems, expr, access, atom, isRecord, peekMany, fill, stopped, blockItems,
+    accessLoop, binLoop, Lx.peek, nextInner, pNext, Lx.next, nextIs, peekIs, take, R.bind, tok_beq] at hp ⊢
+  rw [hp]
+  simp [blockItems, accessLoop, binLoop, Lx.peek, nextInner, pNext, Lx.next, nextIs, peekIs, take, R.bind, tok_beq]
+
+theorem block_fstring_stmt_lit (c : Cfg) (hs : c.stops = [Tok.fstart]) (hw : c.windows = windowsDoc)
+    (ps : T) (h : FlatParts ps = true) (g : Nat) :
+    expr c (partsCount ps + g + 5 + 8) ⟨render (.block (.stmt (.fstr ps) (.last .lit))), []⟩ = .ok (.block (.stmt (.fstr ps) (.last .lit))) ⟨[], []⟩ := by
+  obtain ⟨stops, windows⟩ := c
+  simp only at hs hw
+  subst hs hw
+  have hp : fparts ⟨[Tok.fstart], windowsDoc⟩ (partsCount ps + g + 5 + 1) ⟨renderParts ps ++ [.n .semi, .n .lit, .n .rcurly], []⟩ =
+      .ok ps ⟨[.n .semi, .n .lit, .n .rcurly], []⟩ := by
+    have := fparts_flat ⟨[Tok.fstart], windowsDoc⟩ ps h (g + 1) [.n .semi, .n .lit, .n .rcurly]
+    rwa [show partsCount ps + (g + 1) + 5 = partsCount ps + g + 5 + 1 by omega] at this
+  generalize partsCount ps + g + 5 = F at *
+  simp [windowsDoc, render, renderItems, expr, access, atom, isRecord, peekMany, fill, stopped, blockItems,
+    accessLoop, binLoop, Lx.peek, nextInner, pNext, Lx.next, nextIs, peekIs, take, R.bind, tok_beq] at hp ⊢
+  rw [hp]
+  simp [blockItems, expr, access, atom, accessLoop, binLoop, Lx.peek, nextInner, pNext, Lx.next, nextIs, peekIs,
+    take, R.bind, tok_beq]
+
+theorem block_fstring_fuel (c : Cfg) (hs : c.stops = [Tok.fstart]) (hw : c.windows = windowsDoc)
+    (ps : T) (h : FlatParts ps = true) (g : Nat) :
+    ∀ e ∈ blockShapes ps, expr c (partsCount ps + g + 5 + 8) ⟨render e, []⟩ = .ok e ⟨[], []⟩ := by
+  intro e he
+  simp only [blockShapes, List.mem_cons, List.not_mem_nil, or_false] at he
+  rcases he with rfl | rfl | rfl
+  · exact block_fstring_last c hs hw ps h g
+  · exact block_fstring_stmt c hs hw ps h g
+  · exact block_fstring_stmt_lit c hs hw ps h g
+
+/-- … and through `parseAll` (the fuel it supplies is enough) -/
+theorem block_fstring_parse (c : Cfg) (hs : c.stops = [Tok.fstart]) (hw : c.windows = windowsDoc)
+    (ps : T) (h : FlatParts ps = true) :
+    ∀ e ∈ blockShapes ps, parseAll c (render e) = .ok e ⟨[], []⟩ := by
+  intro e he
+  have hlen : partsCount ps + 13 ≤ 4 * (render e).length + 8 := by
+    have := partsCount_le ps
+    simp only [blockShapes, List.mem_cons, List.not_mem_nil, or_false] at he
+    rcases he with rfl | rfl | rfl <;> simp [render, renderItems] <;> omega
+  obtain ⟨g, hg⟩ : ∃ g, 4 * (render e).length + 8 = partsCount ps + g + 5 + 8 :=
+    ⟨4 * (render e).length + 8 - (partsCount ps + 13), by omega⟩
+  unfold parseAll
+  rw [hg, block_fstring_fuel c hs hw ps h g e he]
+  simp [R.bind, Lx.next, nextInner]
+
 end RotoV.LookAhead
